@@ -68,6 +68,15 @@ func (r *Reporter) formatPrettyError(violation Violation) string {
 
 	lines := r.readSourceLines(position.Filename, position.Line, 2, 1) // 2 lines before, 1 line after
 
+	// The reported line as read does not reach the reported column (the file ends inside the line,
+	// or a //line directive claims a column beyond it): there is no character to put the caret under
+	for i, lineNum := range lines.lineNumbers {
+		if lineNum == position.Line && position.Column > len(lines.content[i])+1 {
+			lines = sourceLines{}
+			break
+		}
+	}
+
 	var builder strings.Builder
 
 	// Error header with code in brackets
